@@ -102,6 +102,7 @@ class Interp:
         self.local_models = {}       # workspace callee key -> model (assume-guarantee summaries supplied by a rule)
         self.purefun = {}            # canonical result variable of a pure integer function -> its argument variables
         self.snapshots = {}
+        self.def_models = {}         # trait method def path -> summary used for calls on trait objects of unknown type
         self.track_content = False   # content-tracking mode: input sequences are identified, copies keep the identity
         self.contents = {}           # content id -> description of a derived content (digest outputs ...)
         self.ret_hooks = {}          # workspace callee key -> fn(interp, state, caller frame, return value): rule-supplied ghosts
@@ -439,6 +440,23 @@ class Interp:
                 lv_ = next(iter(sv.len.t))
                 gen = st.cells.get("ghost:gen:" + lv_)
                 st.cells["ghost:gen:" + lv_] = Num((gen.e if isinstance(gen, Num) else Lin.const(0)) + 1)
+            if isinstance(sv, Seq) and is_listed(sv.items) and loc0[0] == "cell":
+                # a short local array whose elements are listed: an element store with a known index updates the list,
+                # any other store forgets it
+                p = pl["p"][-1]
+                ixc = None
+                if p["k"] == "cidx" and not p.get("from_end"):
+                    ixc = p["off"]
+                elif p["k"] == "index":
+                    iv = st.cells.get(self.cell_of(fr, p["l"]))
+                    ixc = st.sys.const_value(iv.e) if isinstance(iv, Num) else None
+                if ixc is not None and int(ixc) in sv.items.f:
+                    f_ = dict(sv.items.f)
+                    f_[int(ixc)] = val
+                    self.store(st, loc0[1], loc0[2], Seq(sv.len, sv.elem, Struct(f_, tag="elems"), sv.view, sv.src))
+                else:
+                    self.store(st, loc0[1], loc0[2], Seq(sv.len, sv.elem, None, sv.view, sv.src))
+                return
         loc = self.locate(st, fr, pl)
         if loc[0] == "cell":
             self.store(st, loc[1], loc[2], val)
@@ -526,12 +544,20 @@ class Interp:
         """a constant array: small integer arrays keep their elements"""
         n = t.get("len")
         et = fr.body.ty(t["of"]) if "of" in t else {}
+        wrap = False
+        if et.get("k") == "adt":
+            a_ = self.prog.adts.get(et["path"])
+            if a_ and a_["kind"] == "struct" and len(a_["variants"][0]["fields"]) == 1 and "ty" in a_["variants"][0]["fields"][0]:
+                it_ = a_["_types"][a_["variants"][0]["fields"][0]["ty"]]
+                if it_.get("k") == "int":
+                    et, wrap = it_, True          # an array of integer newtypes
         if isinstance(n, int) and 0 < n <= 32 and et.get("k") == "int" and v.get("mem") and not v.get("relocs"):
             w = et["bits"] // 8
             raw = bytes.fromhex(v["mem"])
             if len(raw) == n * w:
                 vals = [int.from_bytes(raw[i * w:(i + 1) * w], "little", signed=bool(et.get("signed"))) for i in range(n)]
-                return Seq(Lin.const(n), None, Struct({i: Num(Lin.const(x)) for i, x in enumerate(vals)}, tag="elems"))
+                mk = (lambda x: Struct({0: Num(Lin.const(x))})) if wrap else (lambda x: Num(Lin.const(x)))
+                return Seq(Lin.const(n), None, Struct({i: mk(x) for i, x in enumerate(vals)}, tag="elems"))
         return Seq(Lin.const(n if isinstance(n, int) else 0)) if isinstance(n, int) else TOP
 
     # ------------------------------------------------------------------ numerics
@@ -1071,7 +1097,14 @@ class Interp:
             return TOP
         if k == "repeat":
             c = rv.get("count")
+            if not isinstance(c, int):
+                t_ = b.ty(dest_ty)
+                if t_.get("k") == "array" and isinstance(t_.get("len"), int):
+                    c = t_["len"]
             if isinstance(c, int):
+                if self.track_content and 0 < c <= 16:
+                    v0 = self.operand(st, fr, rv["op"])
+                    return Seq(Lin.const(c), None, Struct({i: v0 for i in range(c)}, tag="elems"))
                 return Seq(Lin.const(c))
             t = b.ty(dest_ty)
             if t.get("k") == "array":
@@ -1608,6 +1641,16 @@ class Interp:
             if only:
                 targets = only
         outs = []
+        dm = self.def_models.get(f.get("def")) if (f.get("res") or {}).get("kind") == "virtual" and len(targets) != 1 else None
+        if dm is not None and not (args and isinstance(args[0], Ref) and args[0].dyn):
+            # a trait-object call whose receiver type is unknown: the rule's summary of the method's contract
+            ctx = CallCtx(self, st, fr, bb, part, f.get("full") or f.get("def"), args, t)
+            for st2, ret in dm(ctx):
+                if t.get("t") is None or st2.sys.bottom:
+                    continue
+                self.write_place(st2, fr, t["dest"], ret)
+                outs.append((t["t"], st2, None))
+            return outs
         local = [x for x in targets if x[0] == "local"]
         if len(local) > 1:
             # class-hierarchy candidates: drop impls whose parameter types cannot be the argument types at this site
